@@ -93,6 +93,7 @@ func init() {
 				sendFixed("USD", "@a", "{ remaining kept }"),
 				sendAll("USD", "@a", "{ max %C kept remaining to @b }"),
 				sendFixed("USD", "@a", "@world"),
+				sendFixed("USD", "@a allowing unbounded overdraft", "@b"),
 				`set_tx_meta("k", 42)`,
 				`set_tx_meta("k", @acc)`,
 				`set_account_meta(@a, "k", [USD 7])`,
@@ -133,7 +134,7 @@ func init() {
 			n := len(stm)
 			for i := 0; i < n; i++ {
 				for j := 0; j < n; j++ {
-					if tier != "thorough" && i >= 13 && j >= 13 && (i+j)%2 == 1 {
+					if tier != "thorough" && i >= 14 && j >= 14 && (i+j)%2 == 1 {
 						continue
 					}
 					cases = append(cases, c09Case("two-statements", []string{stm[i], stm[j]}, nil))
